@@ -128,6 +128,7 @@ def gen_case(rng):
     if stale:
         extra['ccm_files'] = [{'mtime': 1, 'lines': [{'id': h, 'login': False, 'batch': False} for h in stale['lines']]},
                               {'mtime': 2, 'lines': lines_m}]
+    cfg['agent_local'] = rng.choice([0, 0, 0, 1, 2])
     return {'op': 'init', 'kind': kind, 'cfg': cfg, 'exec_vnode': exec_vnode, 'stale': stale, **extra,
             'lines': lines_m,
             'hosts': [{'id': h, 'login': HOSTS[h][1], 'batch': HOSTS[h][2]} for h in hosts],
@@ -233,7 +234,10 @@ def run_real(rp, case, scratch):
         rm._cfg = ru.Config(from_dict={
             'backup_nodes': cfg['backup'], 'nodes': cfg['nodes'], 'cores': cfg['cores'], 'gpus': cfg['gpus'],
             'cores_per_node': cfg['cpn'], 'gpus_per_node': cfg['gpn'], 'lfs_size_per_node': 0,
-            'lfs_path_per_node': '/tmp', 'agents': {'agent_%d' % i: {'target': 'node'} for i in range(cfg['agent_nodes'])}})
+            'lfs_path_per_node': '/tmp',
+            # sub-agents on nodes of their own, and sub-agents that run next to agent_0 ('local': they need no node)
+            'agents': dict([('agent_%d' % i, {'target': 'node'}) for i in range(cfg['agent_nodes'])] +
+                           [('agent_l%d' % i, {'target': 'local'}) for i in range(cfg.get('agent_local', 0))])})
         sa = {'smt': cfg['smt']}
         if cfg['blocked_cores']: sa['blocked_cores'] = cfg['blocked_cores']
         if cfg['blocked_gpus']:  sa['blocked_gpus']  = cfg['blocked_gpus']
